@@ -19,8 +19,8 @@ import copy
 from . import common
 from .framework import Check, Failure
 
-OP, SOP, SCHED, INST, FOREIGN, OPOF = 0, 1, 2, 3, 4, 5
-KIND_NAME = {OP: "op", OPOF: "op", SOP: "sop", SCHED: "sched", INST: "inst", FOREIGN: "foreign"}
+OP, SOP, SCHED, INST, FOREIGN, OPOF, REPACK = 0, 1, 2, 3, 4, 5, 6
+KIND_NAME = {OP: "op", OPOF: "op", REPACK: "op", SOP: "sop", SCHED: "sched", INST: "inst", FOREIGN: "foreign"}
 
 
 # --------------------------------------------------------------------------
@@ -63,6 +63,19 @@ def build_op(desc):
     if desc[0] == OPOF:
         _, idesc, j, p = desc
         return build_inst(idesc).jobs[j][p]
+    if desc[0] == REPACK:
+        # an operation with a past: member of one instance (hashed there, the way the dispatcher's and the
+        # solvers' sets and dicts do), then the SAME Operation objects re-packed into a second instance, which
+        # re-assigns job_id / position_in_job / operation_id
+        from job_shop_lib import JobShopInstance
+
+        _, idesc, keep, j, p = desc
+        first = build_inst(idesc)
+        seen = {op for job in first.jobs for op in job}
+        lookup = {op: 1 for op in seen}
+        second = JobShopInstance([first.jobs[k] for k in keep], name="repacked")
+        del lookup
+        return second.jobs[j][p]
     _, ms, d, j, p, i, path = desc
     op = Operation(ms[0] if (path == 1 and len(ms) == 1) else list(ms), d)
     op.job_id, op.position_in_job, op.operation_id = j, p, i
@@ -77,7 +90,7 @@ def build(desc):
     from job_shop_lib import Schedule, ScheduledOperation
 
     tag = desc[0]
-    if tag in (OP, OPOF):
+    if tag in (OP, OPOF, REPACK):
         return build_op(desc)
     if tag == SOP:
         return ScheduledOperation(build_op(desc[1]), desc[2], desc[3])
@@ -108,7 +121,7 @@ def snap_sop(s):
 
 def snapshot(desc, obj):
     tag = desc[0]
-    if tag in (OP, OPOF):
+    if tag in (OP, OPOF, REPACK):
         return [0, snap_op(obj)]
     if tag == SOP:
         return [1, snap_sop(obj)]
@@ -117,6 +130,20 @@ def snapshot(desc, obj):
     if tag == INST:
         return [3, [[snap_op(o) for o in job] for job in obj.jobs]]
     return [4, desc[1], desc[2]]
+
+
+def model_desc(desc):
+    """The description the model is given. A re-packed operation is, for the model, the operation at the same
+    place of an instance built from the kept jobs alone: JobShopInstance.__init__ re-runs
+    set_operation_attributes, a function of the positions only (Equality.set_attrs)."""
+    if desc[0] == REPACK:
+        _, idesc, keep, j, p = desc
+        kept = [idesc[1][k] for k in keep]
+        return [OPOF, [INST, [[[list(o[0]), o[1], -1, -1, -1] for o in job] for job in kept],
+                       list(idesc[2]), idesc[3], 1, 0], j, p]
+    if desc[0] == SOP:
+        return [SOP, model_desc(desc[1])] + list(desc[2:])
+    return desc
 
 
 def _cmp(f):
@@ -471,7 +498,7 @@ class C15(Check):
         "foreign values are int / None / str / tuple / list; foreign objects with an __eq__ of their own "
         "that answers True to anything (mock.ANY) are outside the property's quantifier"]
     modelled_not_verified = [
-        "modelled (coq/model/Equality.v): Operation.__eq__ (as repaired by .scratch/fix-C15-operation-eq.diff) and "
+        "modelled (coq/model/Equality.v): Operation.__eq__ (as repaired by /repo commit b4f9bd7) and "
         "__hash__, ScheduledOperation.__eq__, Schedule.__eq__, JobShopInstance.__eq__, "
         "JobShopInstance.set_operation_attributes; tied by differential execution of ==, != and hash on "
         "generated objects, not verified",
@@ -658,6 +685,15 @@ class C15(Check):
         objs.append([OP, list(spec[j][p][0]), spec[j][p][1]] + attrs[j][p] + [0])
         classes.append(0)
         labels.append("same:by-hand")
+        if rng.random() < 0.5:
+            # the same operation reached through a history: hashed inside a larger instance, then re-packed
+            extra = [job for job in self._gen_spec(rng) if job][:rng.randint(1, 2)] or [[[[0], 1]]]
+            at = rng.choice([0, 0, len(spec)])
+            big = extra + spec if at == 0 else spec + extra
+            keep = list(range(len(extra), len(big))) if at == 0 else list(range(len(spec)))
+            objs.append([REPACK, inst_desc(big), keep, j, p])
+            classes.append(0)
+            labels.append("same:repacked-after-hashing" + ("-ids-shifted" if at == 0 else ""))
         if rng.random() < 0.7 and len(pos) > 1:
             j2, p2 = rng.choice([q for q in pos if q != (j, p)])
             objs.append([OPOF, copy.deepcopy(idesc), j2, p2])
@@ -726,7 +762,8 @@ class C15(Check):
 
     def model_requests(self, case, obs):
         eq, _ne, _heq, snaps = obs
-        return [(1501, case["objs"]), (1502, [snaps, eq]), (1503, case["objs"])]
+        mobjs = [model_desc(d) for d in case["objs"]]
+        return [(1501, mobjs), (1502, [snaps, eq]), (1503, mobjs)]
 
     # ---- judgement --------------------------------------------------------
     def judge(self, case, obs, outs):
